@@ -765,4 +765,11 @@ def mutations(ch: Choices, raw: bytes, marks: list[Mark], cap: int = 48) -> list
     for _ in range(3 if raw else 0):
         i = ch.draw(len(raw) * 8, "mut.bit")
         edits.append(("bitflip", i // 8, 1, bytes([raw[i // 8] ^ (1 << (i % 8))])))
+    if raw and ch.draw(4, "mut.run?") == 3:
+        # a long run of one octet, inserted or written over what was there: the shape that makes a
+        # unary / length-driven decoder loop or recurse far beyond what an honest encoding asks of it
+        n = ch.pick([64, 1024, 8192, 65536], "mut.run.len")
+        off = ch.draw(len(raw) + 1, "mut.run.off")
+        fill = ch.pick([b"\xff", b"\x00", b"\x80"], "mut.run.octet")
+        edits.append(("long-run", off, ch.pick([0, min(n, len(raw) - off)], "mut.run.over"), fill * n))
     return [(kind, raw[:off] + put + raw[off + cut:]) for kind, off, cut, put in edits]
